@@ -14,7 +14,7 @@ Supported subset (anything else raises `Unsupported` for the item):
   expressions  names, float/int/str/bool literals (floats become the exact rational of their decimal text), unary
                `-`/`not`, `+ - *`, `/` (raises ZeroDivisionError), `|` on sets, `"fmt" % args` with `%s` only,
                comparison chains, `and`/`or`, conditional expressions, tuples, `t[0]`/`t[1]`, `{e}`, `set()`,
-               `sum([x[i] for x in xs])`, `float(x)`/`str(x)` (identity on the modelled external value),
+               `sum([x[i] for x in xs])`, `float(x)`/`str(x)` (identity on the modelled external value), `getattr(x, "arity", 0) > 0` (string backend),
                `math.exp/log/log1p`, `float("inf")`/`float("-inf")`, `self.m(args)`, `self.<class attribute>`
   typing       fixed per method name (signature table) and per class (carrier type, external type, number backend)
 
@@ -511,6 +511,15 @@ class Ctx:
             if isinstance(op, ast.NotEq):
                 return "Bool.true /- compared with a bound method object: never equal -/"
             raise Unsupported("ordering comparison with a bound method")
+        # `getattr(x, "arity", 0) > 0` on the external value of the string backend: "x is a compound term".  The model
+        # carries external values as their text, so the test becomes a test on the text (PyStr.isCompound).
+        if self.cfg.backend == "str" and isinstance(op, ast.Gt) and isinstance(right, ast.Constant) and right.value == 0 \
+                and isinstance(left, ast.Call) and isinstance(left.func, ast.Name) and left.func.id == "getattr" \
+                and len(left.args) == 3 and not left.keywords and isinstance(left.args[0], ast.Name) \
+                and self.vars.get(left.args[0].id) == "E" \
+                and isinstance(left.args[1], ast.Constant) and left.args[1].value == "arity" \
+                and isinstance(left.args[2], ast.Constant) and left.args[2].value == 0:
+            return "(PyStr.isCompound %s)" % self.expr(left.args[0])
         l, r = self.expr(left), self.expr(right)
         if isinstance(op, ast.Eq):
             return "(%s == %s)" % (l, r)
